@@ -1410,20 +1410,6 @@ func (c13) Gen(rng *rand.Rand, tier string, emit func(string)) {
 		}
 		emit(c13Line("g", workers(), d, r, items))
 	}
-	// round 3: --distance 2 on sequences with |a| + |b| = 30200 > 30000 (beyond the hypothesis of edge2_iff, inside LenOK of
-	// edge2_iff_long): a hub, a variant at two substitutions, one at one substitution, one at three
-	{
-		lr := rand.New(rand.NewSource(1313))
-		hub := make([]byte, 15100)
-		for i := range hub {
-			hub[i] = c13Alpha[lr.Intn(4)]
-		}
-		v1 := c13Subst(lr, hub, 7000)
-		v2 := c13Subst(lr, c13Subst(lr, hub, 100), 15000)
-		v3 := c13Subst(lr, c13Subst(lr, c13Subst(lr, hub, 5), 9000), 15099)
-		emit(c13Line("g", 4, 2, [2]int{1, 1}, []c13Item{{hub, 50}, {v1, 7}, {v2, 5}, {v3, 2}}))
-		stat("gen:long(|a|+|b|>30000)")
-	}
 	// round 3: the float frontier (op f) and every option of the command with its side outputs (op x)
 	c13GenFrontier(rng, tier, emit)
 	c13GenX(rng, tier, emit)
